@@ -10,7 +10,8 @@ Require Import List NArith ZArith QArith Qcanon Bool Permutation.
 Import ListNotations.
 Require Import LV.Files.NpdScan LV.Files.NpdScanProofs LV.Files.NpdLoad LV.Files.NpdLoadProofs.
 Require Import LV.Files.TsTok LV.Files.TsTokProofs LV.Files.TsParse LV.Files.TsParseBasics LV.Files.TsSpec.
-Require Import LV.Files.TsSpecV2 LV.Files.TsMatrix LV.Files.TsLoadV2 LV.Files.TsLoadV1 LV.Files.TsEquiv LV.Files.TsExamples.
+Require Import LV.Files.TsSpecV2 LV.Files.TsMatrix LV.Files.TsLoadV2 LV.Files.TsLoadV1 LV.Files.TsEquiv LV.Files.TsRender.
+Require Import LV.Files.TsExamples.
 
 (* ==== each spelling loads to the ground truth it was generated from ====================================== *)
 
@@ -27,6 +28,30 @@ Print Assumptions v2_load.
 Theorem v1_load : forall g : v1file, v1_wf g -> parse (v1_stream g) = Ok (v1_result g).
 Proof. exact v1_load_lemma. Qed.
 Print Assumptions v1_load.
+
+(* from bytes: the plain spelling of a token stream (a blank after every token, a newline where the stream has one) is
+   read back by the tokenizer, for every stream of newlines, '#', [keywords] and upper-case words whose option-line
+   flags are the ones the scanner computes; hence every well-formed abstract file has a byte string that the loader
+   model loads to the object the file describes. *)
+Theorem plain_spelling_tokens : forall s : list rtok, seg_ok false s -> tokens (render_stream s) = s ++ [REof].
+Proof. exact render_tokens_lemma. Qed.
+Print Assumptions plain_spelling_tokens.
+
+Theorem v2_load_bytes : forall f : v2file, v2_wf f -> v2_texts_ok f ->
+  tokens (render_stream (v2_body f)) = v2_stream f /\ load_ts (render_stream (v2_body f)) = Ok (v2_result f).
+Proof. exact v2_load_bytes_lemma. Qed.
+Print Assumptions v2_load_bytes.
+
+Theorem v1_load_bytes : forall g : v1file, v1_wf g -> v1_texts_ok g ->
+  tokens (render_stream (v1_body g)) = v1_stream g /\ load_ts (render_stream (v1_body g)) = Ok (v1_result g).
+Proof. exact v1_load_bytes_lemma. Qed.
+Print Assumptions v1_load_bytes.
+
+Example load_bytes_instance :
+  (v2_texts_ok ex2_upper /\ v1_texts_ok ex1_two /\ v1_texts_ok ex1_four) /\
+  (render_stream (v2_body ex2_upper) <> ex2_upper_bytes /\ tokens (render_stream (v2_body ex2_upper)) = tokens ex2_upper_bytes /\
+   tokens (render_stream (v1_body ex1_four)) = tokens ex1_four_bytes).
+Proof. exact (conj ex_texts_ok ex_render_same_tokens). Qed.
 
 (* the hypotheses are met by concrete files, given as bytes: a 3-port Upper MHz file ... *)
 Example v2_load_instance :
@@ -287,3 +312,18 @@ Theorem npd_comment_blank_invariance :
      load_npd (pre ++ 10%N :: suf) = load_npd (pre ++ suf)).
 Proof. exact npd_comment_blank_invariance_lemma. Qed.
 Print Assumptions npd_comment_blank_invariance.
+
+(* npd_parameters_separator: the specifiers after '#:parameters' separated by spaces or by commas: scan_line joins
+   the fields with commas, so both spellings give the same record and the loader takes the same step. *)
+Theorem npd_parameters_separator : forall (s : nst) (f0 : list N) (rest : list (list N)), rest <> [] ->
+  (exists fields, record_of (f0 :: rest) = RecKey NKParameters fields) ->
+  nstep s (f0 :: rest) = nstep s [f0; join_comma rest].
+Proof. exact npd_parameters_separator_lemma. Qed.
+Print Assumptions npd_parameters_separator.
+
+Example npd_parameters_separator_instance :
+  npd_lines ex_npd_params_spaces <> npd_lines ex_npd_params_commas /\
+  map record_of (npd_lines ex_npd_params_spaces) = map record_of (npd_lines ex_npd_params_commas) /\
+  load_npd ex_npd_params_spaces = load_npd ex_npd_params_commas /\
+  (exists o, load_npd ex_npd_params_spaces = NOk o).
+Proof. exact ex_npd_params. Qed.
